@@ -68,6 +68,8 @@ func (t *Transaction) Confirm() error {
 
 func (t *Transaction) rollback() {
 	ctx := context.Background()
+	verifhook.Point("tx.expired:" + t.transactionId)
+	defer verifhook.Point("tx.expired.done:" + t.transactionId)
 	t.transactionManager.Rollback(ctx, t.GetRollbackTransaction())
 }
 
